@@ -149,3 +149,28 @@ def sany(wd, module):
     ok = p.returncode == 0 and "Semantic errors" not in p.stdout and "Parsing or semantic analysis failed" not in p.stdout \
         and "***Parse Error***" not in p.stdout
     return ok, p.stdout[-2000:]
+
+
+def apalache(module, obligations, wd, timeout=1200):
+    """obligations: [(invariant, expected_to_hold)] checked with `apalache-mc check --inv=<inv> --length=0` on spec/<module>.tla (symbolic
+    integers: no bound).  Returns (detail, discharged); raises MachineryError when Apalache contradicts the expectation."""
+    import shutil as _sh
+    from .common import SPEC
+    _sh.copy(os.path.join(SPEC, module + ".tla"), wd)
+    detail = {}
+    done = 0
+    for inv, expect_ok in obligations:
+        t0 = time.time()
+        try:
+            p_ = subprocess.run(["apalache-mc", "check", f"--inv={inv}", "--length=0", f"--out-dir={wd}/apalache_{module}_{inv}", module + ".tla"],
+                                cwd=wd, capture_output=True, text=True, timeout=timeout)
+            ok, bad, out = "EXITCODE: OK" in p_.stdout, "EXITCODE: ERROR (12)" in p_.stdout, p_.stdout[-400:]
+        except subprocess.TimeoutExpired:
+            ok, bad, out = False, False, "timeout"
+        detail[inv] = {"holds": ok, "refuted": bad, "wall_s": round(time.time() - t0, 1)}
+        if expect_ok and bad:
+            raise MachineryError(f"Apalache refutes {inv} of {module}: {out}")
+        if not expect_ok and ok:
+            raise MachineryError(f"Apalache accepts the false formula {inv} of {module} (vacuity control): {out}")
+        done += 1 if (ok if expect_ok else bad) else 0
+    return detail, done
